@@ -177,6 +177,8 @@ def stmt(s, ind):
     if k == "import":
         if s["form"] == "mod":
             return f"{pad}import {s['path']}\n"
+        if s["form"] == "type":
+            return f"{pad}import {', '.join('type ' + n for n in s['names'])} from {s['path']}\n"
         return f"{pad}import {', '.join(s['names'])} from {s['path']}\n"
     if k == "alias":
         return f"{pad}{'export ' if s.get('export') else ''}type {s['n']} {s['ty']}\n"
